@@ -1,6 +1,7 @@
 import CanvasModel.C09
 import CanvasModel.C09.SplitAt
 import CanvasModel.C09.Length
+import CanvasModel.C09.Polish
 import CanvasModel.C10
 import CanvasModel.Region
 import CanvasGen.CoreF
@@ -22,7 +23,8 @@ import CanvasGen.GaussLegendreC09
         parameters of a cubic / centre angles of an arc, from the real code; otherwise ignored)
   HYPOT x y                             -> `math.Hypot`
   SPLITAT TS t… P <records> O <oracle>  -> `k` then every piece of `SplitAt` as `| data…` (`panic` if the model panics);
-        oracle: per drawing record `s dT cx cy th1 th2 n v1 … vn` (segment length, centre form, inverse values)
+        oracle: per drawing record `s cx cy th1 th2 n e1 … en` (centre form of an arc, estimates of the Chebyshev
+        polynomial for the cuts in that record); segment lengths and the polish loop are computed here
 
 records: `M x y`, `L x y`, `Q cx cy x y`, `C c1x c1y c2x c2y x y`, `A rx ry phi large sweep x y`, `Z x y`
 (hex float64; the raw values of the data array, phi in radians).
@@ -164,6 +166,31 @@ def floatSplitOps : SplitOps Float where
   absSub a b := (a - b).abs
   gtPi x := x > goPi
 
+def floatPolishOps : PolishOps Float where
+  zero := 0.0
+  add a b := a + b
+  sub a b := a - b
+  mul a b := a * b
+  div a b := a / b
+  abs := Float.abs
+  le a b := a ≤ b
+  lt a b := a < b
+  half x := x / 2.0
+  copysign x sgn := if C10.signbit sgn then -x.abs else x.abs
+
+/-- `invSpeedApprox` (util.go, 56b2370) for the speed `fp` on `[tmin,tmax]`: the 16-panel table of the
+7-point rule, `fLength`, the total length and the polish function (estimate passed in) -/
+def invSpeedApproxF (fp : Float → Float) (tmin tmax : Float) : Float × (Float → Float → Float) :=
+  let h := (tmax - tmin) / 16.0
+  let cum : Array Float := (List.range 16).foldl (fun (acc : Array Float) i =>
+      acc.push (acc[i]! + (glGrouped GenC09.gl7F fp (tmin + i.toFloat * h) (tmin + (i + 1).toFloat * h)).abs)) #[0.0]
+  let fLength := fun (t : Float) =>
+    let i := Float.floor ((t - tmin) / h)
+    let i := if !(0.0 ≤ i) then 0.0 else if 15.0 < i then 15.0 else i
+    cum[i.toUInt64.toNat]! + (glGrouped GenC09.gl7F fp (tmin + i * h) t).abs
+  let total := cum[16]!
+  (total, fun L est => polish floatPolishOps fLength fp h L (0.001 * total) tmin tmax est)
+
 def takeFloats : Nat → List String → Option (List Float × List String)
   | 0, ts => some ([], ts)
   | n + 1, t :: ts => do
@@ -172,19 +199,47 @@ def takeFloats : Nat → List String → Option (List Float × List String)
     pure (f :: fs, rest)
   | _, [] => none
 
-def parseOracle : Nat → List String → Option (List (SegOracle Float))
+/-- what the real code passes in for one drawing record -/
+structure RawOracle where
+  cx : Float
+  cy : Float
+  th1 : Float
+  th2 : Float
+  est : List Float
+
+def parseOracle : Nat → List String → Option (List RawOracle)
   | _, [] => some []
   | 0, _ => none
-  | fuel + 1, "s" :: dT :: cx :: cy :: th1 :: th2 :: n :: rest => do
-    let dT ← floatOfHex? dT
+  | fuel + 1, "s" :: cx :: cy :: th1 :: th2 :: n :: rest => do
     let cx ← floatOfHex? cx
     let cy ← floatOfHex? cy
     let th1 ← floatOfHex? th1
     let th2 ← floatOfHex? th2
     let n ← n.toNat?
     let (vs, rest) ← takeFloats n rest
-    (parseOracle fuel rest).map (⟨dT, vs, cx, cy, th1, th2⟩ :: ·)
+    (parseOracle fuel rest).map (⟨cx, cy, th1, th2, vs⟩ :: ·)
   | _, _ => none
+
+/-- the oracle of the structural model, computed from the geometry: `dT` = math.Hypot for straight
+records, the 16-panel total for curved ones; the polish loop of `invSpeedApprox` -/
+def mkOracles : Pt Float → List (Cmd Float) → List RawOracle → Option (List (SegOracle Float))
+  | _, [], _ => some []
+  | _, .move p :: cs, rs => mkOracles p cs rs
+  | start, c :: cs, r :: rs =>
+    let o : SegOracle Float :=
+      match c with
+      | .quad cp p =>
+        let a := invSpeedApproxF (fun t => ptLen (GenF.quadraticBezierDeriv start cp p t)) 0.0 1.0
+        ⟨a.1, r.est, a.2, r.cx, r.cy, r.th1, r.th2⟩
+      | .cube c1 c2 p =>
+        let a := invSpeedApproxF (fun t => ptLen (GenF.cubicBezierDeriv start c1 c2 p t)) 0.0 1.0
+        ⟨a.1, r.est, a.2, r.cx, r.cy, r.th1, r.th2⟩
+      | .arc rx ry _ _ _ _ =>
+        let a := invSpeedApproxF (ellipseSpeed rx ry) r.th1 r.th2
+        ⟨a.1, r.est, a.2, r.cx, r.cy, r.th1, r.th2⟩
+      | _ => ⟨ptLen (GenF.Point.Sub c.endp start), r.est, fun _ e => e, r.cx, r.cy, r.th1, r.th2⟩
+    (mkOracles c.endp cs rs).map (o :: ·)
+  | _, _ :: _, [] => none
 
 def splitOn (sep : String) (l : List String) : List String × List String :=
   (l.takeWhile (· != sep), (l.dropWhile (· != sep)).drop 1)
@@ -212,7 +267,8 @@ def handle : List String → Option String
     let (recT, orT) := splitOn "O" rest
     let ts ← tsT.mapM floatOfHex?
     let cs ← parseCmds recT.length recT
-    let os ← parseOracle orT.length orT
+    let rs ← parseOracle orT.length orT
+    let os ← mkOracles zeroPt (split cs).flatten rs
     match splitAt C10.floatGeo floatSplitOps cs ts os with
     | none => pure "panic"
     | some ps => pure (ps.foldl (fun acc p => acc ++ " | " ++ showData p) (toString ps.length))
